@@ -32,6 +32,8 @@ pub struct Decoded {
     pub files: BTreeMap<String, DecodedFile>,
     pub n_chunks: usize,
     pub n_blocks: usize,
+    /// sum of the compressed block sizes (0 without the compression layer)
+    pub compressed_total: u64,
 }
 
 struct Rd<'a> {
@@ -140,6 +142,7 @@ pub fn decode(a: &[u8], privs: &[StaticSecret], chunk: usize, block: usize) -> R
         return Err("bad option tag".into());
     }
     let mut n_blocks = 0;
+    let mut compressed_total = 0u64;
     if layers & COMPRESS != 0 {
         if data.len() < 4 {
             return Err("compression layer too short".into());
@@ -177,6 +180,7 @@ pub fn decode(a: &[u8], privs: &[StaticSecret], chunk: usize, block: usize) -> R
             pos += s;
         }
         n_blocks = sizes.len();
+        compressed_total = total as u64;
         data = out;
     }
     // archive content
@@ -349,7 +353,7 @@ pub fn decode(a: &[u8], privs: &[StaticSecret], chunk: usize, block: usize) -> R
     if index.len() != files.len() {
         return Err("index lists names that have no blocks".into());
     }
-    Ok(Decoded { layers, recipients, files, n_chunks, n_blocks })
+    Ok(Decoded { layers, recipients, files, n_chunks, n_blocks, compressed_total })
 }
 
 // ---------------------------------------------------------------- encoder
